@@ -122,11 +122,13 @@ func (c26) NewRun(plan *simrt.Source, job *harn.Job) harn.Run {
 		base := r.files[plan.Draw(len(r.files))]
 		if !base.Link && strings.HasSuffix(base.Rel, ".go") {
 			nonce := 500 + plan.Draw(50)
-			for _, k := range []int{0, 1, 2, 3} {
+			for _, k := range []int{0, 1, 2, 3, 4} {
 				if !plan.Chance(500) {
 					continue
 				}
 				switch k {
+				case 4: // the same stem as an .xgo source (a partly migrated package): where -mvgo wants to put its result
+					r.files = append(r.files, filePlan{Rel: strings.TrimSuffix(base.Rel, ".go") + ".xgo", Kind: "unformatted", Mode: 0644, Src: fmt.Sprintf(xgoUnformatted[plan.Draw(len(xgoUnformatted))], nonce+1)})
 				case 0:
 					r.files = append(r.files, filePlan{Rel: base.Rel + "x", Kind: "unformatted", Mode: 0644, Src: fmt.Sprintf(goxUnformatted[plan.Draw(len(goxUnformatted))], nonce)})
 				case 1:
@@ -158,6 +160,24 @@ func (c26) NewRun(plan *simrt.Source, job *harn.Job) harn.Run {
 		r.flags = []string{"-t"}
 	case 4:
 		r.flags = []string{"-n"}
+	}
+	if r.mvgo && plan.Chance(400) {
+		// -mvgo puts its result at <stem>.xgo: sometimes that name is taken
+		for _, f := range r.files {
+			if strings.HasSuffix(f.Rel, ".go") && !f.Link {
+				np := strings.TrimSuffix(f.Rel, ".go") + ".xgo"
+				taken := false
+				for _, g := range r.files {
+					if g.Rel == np {
+						taken = true
+					}
+				}
+				if !taken {
+					r.files = append(r.files, filePlan{Rel: np, Kind: "formatted", Mode: 0644, Src: fmt.Sprintf(formattedXgo, 700+len(r.files))})
+				}
+				break
+			}
+		}
 	}
 	switch plan.Draw(3) {
 	case 0:
@@ -337,6 +357,45 @@ func (r *c26run) RunSeq(sched *simrt.Source, keepLog bool) *simrt.Result {
 		}
 	}
 	logf("reference run: exit %d, %d mutating operations, %d files rewritten", refCode, refOps, r.rewrote)
+	// --- what is each file's OWN formatted content? The same command, run with
+	// only that file present (plus whatever a symbolic link needs). The whole
+	// directory's end state is not a yardstick for a single file: a run that
+	// puts one file's content at another file's path ends in a state, too.
+	alone := map[string]fstate{}
+	for _, f := range r.files {
+		if f.Kind == "bystander" {
+			alone[f.Rel] = orig[f.Rel]
+			continue
+		}
+		os.Chdir(cwd)
+		if err := r.populate(); err != nil {
+			fail("harness", err.Error(), "populate")
+			return res
+		}
+		os.Chdir(r.dir)
+		for _, g := range r.files {
+			if g.Rel != f.Rel && !(f.LinkText != "" && filepath.Join(filepath.Dir(f.Rel), f.LinkText) == g.Rel) {
+				os.Remove(g.Rel)
+			}
+		}
+		saved := r.args
+		if len(saved) > 0 && saved[0] != "." && saved[0] != "./..." {
+			r.args = []string{f.Rel}
+		}
+		_, p1 := r.invoke()
+		r.args = saved
+		if p1 != nil {
+			fail("panic", fmt.Sprintf("xgo fmt panicked: %v", p1), "panic in xgo fmt")
+			return res
+		}
+		alone[f.Rel] = readState(f.Rel)
+		if r.mvgo && strings.HasSuffix(f.Rel, ".go") {
+			np := strings.TrimSuffix(f.Rel, ".go") + ".xgo"
+			if _, had := orig[np]; !had {
+				alone[np] = readState(np)
+			}
+		}
+	}
 	// --- judged run -------------------------------------------------------------------
 	os.Chdir(cwd)
 	if err := r.populate(); err != nil {
@@ -389,13 +448,13 @@ func (r *c26run) RunSeq(sched *simrt.Source, keepLog bool) *simrt.Result {
 			st := readState(p)
 			o := orig[p]
 			okOrig := st.exists && st.data == o.data
-			okRef := ref[p].exists && st.exists && st.data == ref[p].data
+			okRef := alone[p].exists && st.exists && st.data == alone[p].data
 			if okOrig || okRef {
 				continue
 			}
 			if r.mvgo && strings.HasSuffix(p, ".go") {
 				np := strings.TrimSuffix(p, ".go") + ".xgo"
-				if ns := readState(np); ns.exists && ref[np].exists && ns.data == ref[np].data {
+				if ns := readState(np); ns.exists && alone[np].exists && ns.data == alone[np].data {
 					continue
 				}
 			}
@@ -405,7 +464,7 @@ func (r *c26run) RunSeq(sched *simrt.Source, keepLog bool) *simrt.Result {
 				what = "does not exist"
 				site = "file missing"
 			}
-			fail("crash-consistency", fmt.Sprintf("killed %s: %s %s (original %d bytes, formatted %d bytes, found %d bytes)", when, p, what, len(o.data), len(ref[p].data), len(st.data)), site+" "+lastOpKind(when))
+			fail("crash-consistency", fmt.Sprintf("killed %s: %s %s (original %d bytes, its own formatted content %d bytes, found %d bytes)", when, p, what, len(o.data), len(alone[p].data), len(st.data)), site+" "+lastOpKind(when))
 			return
 		}
 	}
